@@ -396,6 +396,7 @@ type ByteMut struct {
 	Len  int    // burst length in bits
 	Pat  int    // burst pattern 0 invert,1 set0,2 set1,3 alternate; for ins: 0 zero, 1 0xFF, 2 copy of neighbour
 	Val  byte   // for sub
+	W    uint64 `json:",omitempty"` // for setle / setbe: the value written into Len bytes at Pos
 }
 
 func (m ByteMut) String() string {
@@ -406,6 +407,8 @@ func (m ByteMut) String() string {
 		return fmt.Sprintf("burst at bit %d len %d pattern %d", m.Pos, m.Len, m.Pat)
 	case "sub":
 		return fmt.Sprintf("byte %d := %#02x", m.Pos, m.Val)
+	case "setle", "setbe":
+		return fmt.Sprintf("%d-byte field at %d := %#x (%s)", m.Len, m.Pos, m.W, m.Kind[3:])
 	}
 	return fmt.Sprintf("%s at byte %d (variant %d)", m.Kind, m.Pos, m.Pat)
 }
@@ -454,6 +457,14 @@ func (m ByteMut) apply(data []byte) []byte {
 		out = append(out[:m.Pos], append([]byte{v}, out[m.Pos:]...)...)
 	case "sub":
 		out[m.Pos] = m.Val
+	case "setle", "setbe":
+		for i := 0; i < m.Len && m.Pos+i < len(out); i++ {
+			sh := uint(8 * i)
+			if m.Kind == "setbe" {
+				sh = uint(8 * (m.Len - 1 - i))
+			}
+			out[m.Pos+i] = byte(m.W >> sh)
+		}
 	case "trunc":
 		out = out[:m.Pos]
 	}
